@@ -318,6 +318,33 @@ def _r2(ctx, pkg):
         quantified = any(x[0] == "call" and x[1] in (("global", "all"), ("global", "any")) for x in gtxt)
         mentions = any(x == ALLOWED for x in gtxt) or any(x[0] == "meth" and x[1] == SELF for x in gtxt)
         if mentions and not quantified:
+            # understood and wrong: the species are looked up BY HASH (`self._lookup.issuperset(..)`, `.. <= self._lookup`, `rp in self._lookup`
+            # with _lookup a set / frozenset of the allowed list) while Species.__hash__ does not follow Species.__eq__ (two spellings of one
+            # grain are == with different hashes, C15.R2 / C09.R7): an allowed species is then "not allowed" and its reactions vanish
+            hashed = []
+            for mn_, mf_ in pkg.cls("Network").methods.items():
+                for st_ in ast.walk(mf_):
+                    if isinstance(st_, ast.Assign) and len(st_.targets) == 1 and isinstance(st_.targets[0], ast.Attribute) and isinstance(st_.targets[0].value, ast.Name) \
+                            and st_.targets[0].value.id == "self" and isinstance(st_.value, (ast.Call, ast.SetComp, ast.Set)):
+                        v_ = st_.value
+                        if (isinstance(v_, ast.Call) and isinstance(v_.func, ast.Name) and v_.func.id in ("set", "frozenset") and any(
+                                isinstance(x, ast.Attribute) and x.attr in ("_allowed_species", "allowed_species") for x in ast.walk(v_))) or \
+                                (isinstance(v_, ast.SetComp) and any(isinstance(x, ast.Attribute) and x.attr in ("_allowed_species", "allowed_species") for x in ast.walk(v_))):
+                            hashed.append(st_.targets[0].attr)
+            used = [x for x in gtxt if (x[0] == "meth" and len(x) >= 3 and x[1][:1] == ("attr",) and x[1][1:2] == (SELF,) and x[1][2] in hashed and x[2] in ("issuperset", "issubset", "isdisjoint", "__contains__"))
+                    or (x[0] == "cmp" and any(isinstance(y, tuple) and y[:1] == ("attr",) and y[1:2] == (SELF,) and y[2] in hashed for y in walk(x)))]
+            if hashed and used:
+                from .c09 import hash_contract
+                from ..core import Ctx
+                sub = Ctx(ctx.tree, ctx.prop, ctx.tier)
+                hash_contract(sub, pkg, "R2")
+                broken = [o for o in sub.obs if o.key.startswith("hash vs eq") and o.outcome == "VIOLATION"]
+                if broken:
+                    ctx.bad("R2", "_add_reaction:filter dominates append", (NF, a.line),
+                            f"the allowed list is consulted through the hashed copy self.{sorted(set(hashed))[0]} (set membership), but Species.__hash__ does not follow Species.__eq__ "
+                            f"({broken[0].key}): a species that IS in the allowed list under another spelling (GRAIN / GRAIN0) is not found and its reactions are dropped from the network",
+                            expected="membership by == over the allowed list (all(rp in self._allowed_species ..))", found=detail[:200])
+                    return
             ctx.unrec("R2", "_add_reaction:filter dominates append", (NF, a.line), f"the test of the allowed list that guards the append is not understood: {detail[:200]}")
             return
         if not mentions and not quantified:
